@@ -21,6 +21,17 @@ CHECKS['C16'] = dict(
     note='Trusted: SX engine (witness replay per path), z3, clock stub (time() = arbitrary integer now >= 0), log2 contract '
          'stub inside int_to_bytes. Known finding F5 (before-lock accepts far-future t) is listed in known_findings.json.',
     technique=TECH)
+CHECKS['C02'] = dict(
+    text='OP_CHECK_SIG(_VERIFY), OP_GET_MESSAGE, OP_SIGN, OP_SIGN_STACK and OP_CHECK_SIG_STACK are executed symbolically for all '
+         '256 flag bytes x all 256 allowed operands (symbolic bits), all 256 presence subsets of sigfield1..8 with symbolic contents '
+         '(fixed length profiles), symbolic key / signature / seed, and the error lengths. On every path the (key, message, signature) '
+         'triple handed to the Ed25519 oracle, the error class and the stack result are compared with a reference message builder '
+         'by unsat queries; sign-then-check is one symbolic run. Bounded in the sigfield length profiles only.',
+    design_ref='DESIGN.md section 4 C02',
+    note='Trusted: SX engine (witness replay against the real op with the verifier replaced by the model verdict), z3, the '
+         'signature-oracle stub for libsodium (valid(k,m,s) uninterpreted; sign returns s with valid(pub(seed),m,s)). Counterexamples are '
+         'realised with real Ed25519 keys/signatures and replayed on the real package before being reported.',
+    technique=TECH)
 NOT_APPLICABLE = {}
 NOTES = ('Exit codes of every check: 0 held on everything explored; 1 + VIOLATION line for a counterexample that was '
          'replayed on the real package and is not a listed known finding; 2 harness error / unsupported construct / '
